@@ -30,7 +30,10 @@ type wtMsg struct {
 	Len    int    `json:"len"`
 	API    string `json:"api"`    // message | writer | string | readfrom | prepared
 	Chunks []int  `json:"chunks"` // write sizes for writer/readfrom
-	data   []byte
+	// LeaveOpen: the streaming writer of this message is not closed by the application; the next
+	// message's write call (whatever its API) has to finish it first
+	LeaveOpen bool `json:"writer_left_open"`
+	data      []byte
 }
 
 type wtCase struct {
@@ -151,6 +154,18 @@ func genWTCase(rng *rand.Rand, big bool) wtCase {
 			m.Chunks = chunking(rng, m.Len)
 		}
 		c.Msgs = append(c.Msgs, m)
+	}
+	for i := range c.Msgs[:len(c.Msgs)-1] {
+		// NextWriter (and WriteMessage, its helper) finish a writer the application left open;
+		// a prepared message is written past an open writer, as in the library this layer derives
+		// from, so that sequence is the application's mistake and is not generated
+		if c.Msgs[i+1].API == "prepared" {
+			continue
+		}
+		switch c.Msgs[i].API {
+		case "writer", "string", "readfrom", "readfrom-eof":
+			c.Msgs[i].LeaveOpen = rng.IntN(5) == 0
+		}
 	}
 	return c
 }
@@ -275,6 +290,9 @@ func writeWT(c *webtrans.Conn, m wtMsg) error {
 		if _, err := io.Copy(w, &chunkReader{data: m.data, chunks: append([]int(nil), m.Chunks...), eofWithData: m.API == "readfrom-eof"}); err != nil {
 			return err
 		}
+	}
+	if m.LeaveOpen {
+		return nil
 	}
 	return w.Close()
 }
